@@ -400,32 +400,32 @@ def shadow_scenarios():
     evaluated; then ONE edit that makes `x` in `S` denote something else - an own reference of `S`, a reference
     DERIVED into `S` through a new base (defined before or after the evaluation), the model-level reference
     changed / deleted, the shadowing reference deleted / the base removed - ; everything evaluated again."""
-    F = lambda i, k=1, a="f", r="x", c="S": (i, k, a, r, c)     # noqa
+    F = lambda i, k=1, a="f", r="r", c="S": (i, k, a, r, c)     # noqa
     edits = [
         [["add_bases", "S", ["B"]]],
-        [["set_ref", "S", "x", 7]],
-        [["set_mref", "x", 4]],
-        [["del_mref", "x"]],
-        [["del_mref", "x"], ["set_mref", "x", 6]],
+        [["set_ref", "S", "r", 7]],
+        [["set_mref", "r", 4]],
+        [["del_mref", "r"]],
+        [["del_mref", "r"], ["set_mref", "r", 6]],
         [["add_bases", "S", ["B"]], ["evalall"], ["remove_bases", "S", ["B"]]],
-        [["set_ref", "S", "x", 7], ["evalall"], ["del_ref", "S", "x"]],
-        [["add_bases", "S", ["B"]], ["evalall"], ["set_mref", "x", 9]],
-        [["add_bases", "S", ["B"]], ["evalall"], ["del_ref", "B", "x"]],
-        [["add_bases", "S", ["B"]], ["evalall"], ["set_ref", "B", "x", 8]],
-        [["new_space", "-", "A", []], ["set_ref", "A", "x", 3], ["add_bases", "B", ["A"]], ["add_bases", "S", ["B"]]],
-        [["set_ref", "S2", "x", 2]],
+        [["set_ref", "S", "r", 7], ["evalall"], ["del_ref", "S", "r"]],
+        [["add_bases", "S", ["B"]], ["evalall"], ["set_mref", "r", 9]],
+        [["add_bases", "S", ["B"]], ["evalall"], ["del_ref", "B", "r"]],
+        [["add_bases", "S", ["B"]], ["evalall"], ["set_ref", "B", "r", 8]],
+        [["new_space", "-", "A", []], ["set_ref", "A", "r", 3], ["add_bases", "B", ["A"]], ["add_bases", "S", ["B"]]],
+        [["set_ref", "S2", "r", 2]],
         [["add_bases", "S2", ["B"]]],
     ]
     cases = []
     for cached in (1, 0):
         for bx in ("before", "none"):
-            base = [["set_mref", "x", 1], ["new_space", "-", "B", []], ["new_space", "-", "S", []],
+            base = [["set_mref", "r", 1], ["new_space", "-", "B", []], ["new_space", "-", "S", []],
                     ["new_space", "-", "S2", []], ["new_space", "-", "T", []],
                     ["set_ref", "T", "S", ("obj", "S")], ["set_ref", "T", "S2", ("obj", "S2")]]
             if bx == "before":
-                base.append(["set_ref", "B", "x", 5])
+                base.append(["set_ref", "B", "r", 5])
             base += [["new_cells", "S", "f", F(2)], ["new_cells", "S", "g", F(16)], ["new_cells", "T", "c", F(3)],
-                     ["new_cells", "T", "c2", F(3, 1, "f", "x", "S2")], ["new_cells", "T", "d", F(1, 1, "c")]]
+                     ["new_cells", "T", "c2", F(3, 1, "f", "r", "S2")], ["new_cells", "T", "d", F(1, 1, "c")]]
             if not cached:
                 base += [["set_cached", "S", "g", 0], ["set_cached", "T", "c", 0]]
             for e in edits:
